@@ -1,5 +1,5 @@
 (* drv_R.ml — the read-only model's I/O plan (engine R, C07).
-   input line:   plan <in_place 0|1> <no_copy 0|1> <cache 0|1> <output 0|1> <toks>
+   input line:   plan <in_place 0|1> <no_copy 0|1> <cache 0|1> <output 0|1> <toks> [failmk]     (failmk: create_dir_all of the temp dir fails)
                    toks = string over L (literal) I ($IN) O ($OUT) V (other $var); "-" = empty command;
                    "none" = no --transform at all
                  table          (the 16 combinations, the value of mode_table)
@@ -37,7 +37,7 @@ let s_out = function
   | OutStdOut -> "stdout:-"
   | OutNamed p -> "named:" ^ s_path p
   | OutInPlace p -> "in_place:" ^ s_path p
-let s_stdin = function StdinNull -> "null" | StdinInherit -> "inherit" | StdinFile p -> "file:" ^ s_path p
+let s_stdin = function StdinNull -> "null" | StdinFile p -> "file:" ^ s_path p
 let s_err = function
   | EOutConflictsInPlace -> "out_conflicts_in_place"
   | EInRequired -> "in_required"
@@ -69,19 +69,20 @@ let () = iter_lines (fun line ->
     let g = { g_transform = None; g_in_place = b ip; g_no_copy = b nc; g_cache = b cache; g_output = b output } in
     let evs = group_run no_fail g [ { fe_hit = false; fe_fails = no_fail } ] in
     Printf.sprintf "ok none run=%s left=%d" (s_list s_call (muts evs)) (List.length (exec_events true evs []))
-  | ["plan"; ip; nc; cache; output; ts] ->
+  | "plan" :: ip :: nc :: cache :: output :: ts :: rest when rest = [] || rest = ["failmk"] ->
+    let fl = if rest = [] then no_fail else fail_at (Some SMkTmp) in
     let toks = toks_of ts in
-    (match build_transform no_fail toks (b ip) (b nc) with
+    (match build_transform fl toks (b ip) (b nc) with
      | (_, Err e) ->
        let g = { g_transform = Some toks; g_in_place = b ip; g_no_copy = b nc; g_cache = b cache; g_output = b output } in
-       let evs = group_run no_fail g [ { fe_hit = false; fe_fails = no_fail } ] in
+       let evs = group_run fl g [ { fe_hit = false; fe_fails = no_fail } ] in
        Printf.sprintf "err %s run=%s" (s_err e) (s_list s_call (muts evs))
      | (_, Ok t) ->
        let (((args, i), o), _) = make_args t O toks in
        let (fevs, _) = run_file_ok t O toks no_fail in
        let sp = List.concat (List.map (function Spawn (_, sin) -> [s_stdin sin] | _ -> []) fevs) in
        let g = { g_transform = Some toks; g_in_place = b ip; g_no_copy = b nc; g_cache = b cache; g_output = b output } in
-       let evs = group_run no_fail g [ { fe_hit = false; fe_fails = no_fail } ] in
+       let evs = group_run fl g [ { fe_hit = false; fe_fails = no_fail } ] in
        Printf.sprintf "ok copy=%s in=%s out=%s subs=%s spawn=%s file=%s run=%s left=%d"
          (sob t.t_copy) (s_in i) (s_out o) (s_list s_sub args) (String.concat "," sp)
          (s_list s_call (calls fevs)) (s_list s_call (muts evs)) (List.length (exec_events true evs [])))
